@@ -1,16 +1,17 @@
 #!/bin/sh
 # for every seeded change: apply it to a scratch copy of /repo HEAD and run the property's quick check at several seeds;
+# (ONLY=<glob of seed dir names>, e.g. ONLY="C02-*", restricts the set)
 # prints "<seed-dir> seed=<s> detected|MISSED"
 cd "$(dirname "$0")/.."
 V=$(pwd)
-for d in seeded/*/; do
+for d in seeded/${ONLY:-*}/; do
   name=$(basename "$d"); pid=${name%%-*}
   D=$(mktemp -d /tmp/smXXXXXX)
   git -C /repo archive HEAD | tar -x -C "$D"
   if ! (cd "$D" && git apply --unsafe-paths -p1 "$V/$d/patch.diff" 2>/dev/null); then echo "$name NOAPPLY"; rm -rf "$D"; continue; fi
   for s in ${SEEDS:-1 2 3}; do
-    out=$(VERIF_REPO="$D" VERIF_SEED=$s ./check "$pid" --tier quick --no-evidence 2>&1)
+    out=$(VERIF_REPLAY_DIR="$D/replays" VERIF_REPO="$D" VERIF_SEED=$s ./check "$pid" --tier quick --no-evidence 2>&1)
     if echo "$out" | grep -q "^VIOLATION property=$pid"; then echo "$name seed=$s detected"; else echo "$name seed=$s MISSED $(echo "$out" | grep -E 'HARNESS' | head -1 | cut -c1-100)"; fi
   done
-  rm -rf "$D" replays
+  rm -rf "$D"
 done
